@@ -5,76 +5,123 @@ Full statement (from the property text): with concurrent helper channels, each h
 channel ID it carries, however the reply bytes are split across reads and in whatever order replies arrive; with non-concurrent
 helpers, replies are applied in request order; a reply for an unknown channel is never applied to any request.
 
-The model (SquidModel/Helper/Read.lean) follows `helperHandleRead` & co. of src/helper.cc.  `tree conc` is the model of the tree as
-it is: its four behaviour flags are dumped from the staged code (SquidModel/Gen/HelperRead.lean); since the fix commits ad6fd97
-(reply dispatch waits for the complete channel-ID), 42be5de (malformed replies are dropped instead of asserting) and e4eb057
-(channel-ID not truncated to int) they are all `true`.  The headline theorems below are stated for `tree conc`; each uses the dumped
-flags by `rfl`, so a regression of the code that flips a flag breaks the proof (and the correspondence).
+The model (SquidModel/Helper/Read.lean) follows `helperHandleRead` & co. of src/helper.cc and describes, selected by `Cfg` flags,
+both the pinned tree and the tree after the candidate repairs notes/fixes/C47-*.diff.  What is proved:
 
-Headline (tree as it is; protocol-conforming helper output `<digits> SP <body> LF` with any channel numbers — waiting, unknown,
-duplicate — in any order, any bodies without NUL/CR/LF not starting with a blank; **every fragmentation into reads, unbounded**):
-* `reply_to_own_channel` — every callback goes to a request that was waiting on exactly the channel named by the line whose body
-  it receives;
-* `any_fragmentation_same_result`, `two_reads_or_one` — splitting the output into reads anywhere changes nothing at all;
-* `unknown_channel_never_applied`; `fifo_when_not_concurrent`;
-* `never_aborts` — no bytes whatsoever, in any fragmentation, trip an assertion of the reader.
-Hypotheses that remain (why the tie to the binary is still needed, and what "partial" means in the manifest): conforming output; the
-helper is not caught writing while nothing is pending (then `helperHandleRead` kills the helper); one helper process; no timeouts.
-For arbitrary bytes `pop_never_on_partial_id` shows that no request is looked up with an incomplete channel id.
+* the pinned behaviour violates the statement: `split_channel_id_counterexample`, `split_channel_id_drop_counterexample`,
+  `unterminated_id_assert_counterexample`, `nul_assert_counterexample`, `channel_id_truncation_counterexample`;
+* for the repaired behaviour (`popOnlyWhenComplete`, `dropUnterminated`) and protocol-conforming helper output
+  (`<digits> SP <body> LF`, any channel numbers known or unknown, any order, any bodies without NUL/CR/LF), **for every
+  fragmentation into reads**: `two_reads_or_one`, `any_fragmentation_same_result`, `reply_to_own_channel`
+  (every callback goes to a request that was waiting on the channel named by the line whose body it receives),
+  `unknown_channel_never_applied`;
+* `repaired_never_aborts`: no helper output at all (conforming or not) trips an assertion of the repaired reader;
+* `fifo_when_not_concurrent`: without concurrency the request list is a FIFO: dispatch appends, a reply takes the oldest.
 
-Pre-fix behaviour (`preFix`, all flags `false`) is kept as labelled counterexamples `pre_fix_*`: they document the four defects the
-check found in the pinned tree and are regression witnesses (corpus/C47).
+`reply_to_own_channel` is `_partial` with respect to the full statement only in its hypotheses "conforming output" and "the helper
+is not caught writing while nothing is pending" (then `helperHandleRead` kills the helper, in either tree): for arbitrary
+(non-conforming) bytes the per-read lemma `pop_never_on_partial_id` still shows that the repaired reader never looks a request up
+with an incomplete channel id.
 -/
 import SquidModel.Helper.Lemmas
-import SquidModel.Gen.HelperRead
 
 namespace SquidModel.C47
 open SquidModel.Helper
 
-/-- the reader as the staged tree has it (flags dumped by translate/helper_read.py) -/
-def tree (conc : Nat) : Cfg :=
-  { concurrency := conc, popOnlyWhenComplete := Gen.HelperRead.popOnlyWhenComplete, dropUnterminated := Gen.HelperRead.dropUnterminated,
-    nulCloses := Gen.HelperRead.nulCloses, wideChannelId := Gen.HelperRead.wideChannelId }
-
-/-- the reader before ad6fd97 / 42be5de / e4eb057 -/
-def preFix (conc : Nat) : Cfg :=
+/-- the pinned tree -/
+def pinned (conc : Nat) : Cfg :=
   { concurrency := conc, popOnlyWhenComplete := false, dropUnterminated := false, nulCloses := false, wideChannelId := false }
+/-- the tree with notes/fixes/C47-*.diff applied -/
+def repaired (conc : Nat) : Cfg :=
+  { concurrency := conc, popOnlyWhenComplete := true, dropUnterminated := true, nulCloses := true, wideChannelId := true }
 
-/-! ## the tree as it is -/
+/-! ## the pinned behaviour violates the property -/
 
-/-- **Replies reach the request that asked.**  Concurrent helper, session between two messages with a request waiting.  The helper
-writes the complete conforming lines `ls` (any channel numbers: waiting, unknown, duplicate, in any order), delivered in ANY
-fragmentation `c0, cs[0], cs[1], ...`.  Every callback made is the callback of a request `r` that, when line `p` was reached, was
-waiting on exactly the channel `p` names, and it receives exactly `p`'s body (appended to what `r` had accumulated: nothing, for a
-request between messages). -/
-theorem reply_to_own_channel (conc : Nat) (hconc : conc > 0) (ls : List (Bytes × Bytes)) (st : St)
-    (hgl : GoodLines ls) (hs : LineStart st) (hcl : st.closed = false) (hdd : st.dead = false)
-    (hp : st.pending ≠ 0) (cs : List Bytes) (c0 : Bytes) (hx : c0 ++ cs.flatten = encode ls)
-    (hpend : ∀ k, k < cs.length → (handleRead (tree conc) st (c0 ++ (cs.take k).flatten)).pending ≠ 0) :
-    ∃ extra, (feed (tree conc) st (c0 :: cs)).delivered = st.delivered ++ extra ∧
-      ∀ d ∈ extra, ∃ pre p post, ls = pre ++ p :: post ∧ ∃ r ∈ (runLines (tree conc) st pre).requests,
-        (r.id : Int) = chanOf (tree conc) p.1 ∧ d = (r.serial, r.acc ++ p.2) :=
-  feed_delivered (tree conc) hconc rfl rfl ls st hgl hs hcl hdd hp cs c0 hx hpend
+/-- Channels 1..12 are waiting, the helper answers channel 12 with `12 OK\n` and the bytes arrive as `1` | `2 OK\n`.
+The reply is applied to the request on channel 1 (as the text `12 OK`); the request on channel 12 never gets it. -/
+theorem split_channel_id_counterexample :
+    let st := run (pinned 60) 0 12 [[49], [50, 32, 79, 75, 10]]
+    deliveredTo st 1 = some [49, 50, 32, 79, 75] ∧ deliveredTo st 12 = none := by
+  decide +kernel
 
-/-- **Any fragmentation.**  The reads `c0, cs[0], cs[1], ...` whose concatenation is (a prefix of) conforming output — complete
-lines `ls` and an unfinished line `tl` — leave the session in exactly the state the single read of all the bytes leaves it in:
-the same requests received the same replies, the same requests still wait, the same bytes are kept. -/
-theorem any_fragmentation_same_result (conc : Nat) (hconc : conc > 0) (ls : List (Bytes × Bytes)) (tl : Tail) (st : St)
+/-- The same bytes when only channels 10..12 are waiting (no request on the partial id 1): the reply is dropped,
+the request on channel 12 (the third one) never gets it, although the one-read delivery reaches it. -/
+theorem split_channel_id_drop_counterexample :
+    deliveredTo (run (pinned 60) 9 3 [[49], [50, 32, 79, 75, 10]]) 3 = none ∧
+    deliveredTo (run (pinned 60) 9 3 [[49, 50, 32, 79, 75, 10]]) 3 = some [79, 75] := by
+  decide +kernel
+
+/-- With repair 1 the same bytes reach channel 12 and only channel 12. -/
+theorem split_channel_id_repaired_witness :
+    let st := run (repaired 60) 0 12 [[49], [50, 32, 79, 75, 10]]
+    deliveredTo st 12 = some [79, 75] ∧ deliveredTo st 1 = none := by
+  decide +kernel
+
+/-- Pinned behaviour: a complete line that does not start with a terminated channel id (`OK\n` from a helper that
+ignores the concurrency protocol) trips `assert(skip == 0 && eom == nullptr)`. -/
+theorem unterminated_id_assert_counterexample :
+    (run (pinned 60) 0 1 [[79, 75, 10]]).dead = true := by
+  decide +kernel
+
+/-- Pinned behaviour: a NUL octet right after a reply trips `assert(msg - rbuf == roffset)`. -/
+theorem nul_assert_counterexample :
+    (run (pinned 60) 0 1 [[49, 32, 79, 75, 10, 0]]).dead = true := by
+  decide +kernel
+
+/-- Pinned behaviour: the channel id is read with `strtol` and stored in an `int`; `4294967297 OK\n` (2^32 + 1) is applied
+to the request waiting on channel 1.  With repair 3 it is not. -/
+theorem channel_id_truncation_counterexample :
+    deliveredTo (run (pinned 60) 0 1 [[52, 50, 57, 52, 57, 54, 55, 50, 57, 55, 32, 79, 75, 10]]) 1 = some [79, 75] ∧
+    deliveredTo (run (repaired 60) 0 1 [[52, 50, 57, 52, 57, 54, 55, 50, 57, 55, 32, 79, 75, 10]]) 1 = none := by
+  decide +kernel
+
+/-! ## the repaired behaviour: fragmentation does not matter -/
+
+/-- **Two reads or one.**  Concurrent helper, repairs 1 and 2, a session between two messages with a request waiting.
+The helper writes conforming output (`ls` complete lines and an unfinished line `tl`); wherever the bytes `a ++ b` of that
+output are cut into two reads — inside a channel number, right after it, inside a body, before or after a terminator — the
+session ends in exactly the same state as after the single read of `a ++ b`: the same requests received the same replies,
+the same requests still wait, the same bytes are kept. -/
+theorem two_reads_or_one (cfg : Cfg) (hconc : cfg.concurrency > 0) (hfix : cfg.popOnlyWhenComplete = true)
+    (hfix2 : cfg.dropUnterminated = true) (ls : List (Bytes × Bytes)) (tl : Tail) (st : St) (a b : Bytes)
+    (hgl : GoodLines ls) (htl : tl.Good) (hs : LineStart st) (hcl : st.closed = false) (hdd : st.dead = false)
+    (hp : st.pending ≠ 0) (hab : a ++ b = encode ls ++ tl.enc) (hp1 : (handleRead cfg st a).pending ≠ 0) :
+    handleRead cfg (handleRead cfg st a) b = handleRead cfg st (a ++ b) :=
+  handleRead_merge cfg hconc hfix hfix2 ls tl st a b hgl htl hs hcl hdd hp hab hp1
+
+/-- **Any fragmentation.**  The same for any number of reads `c0, cs[0], cs[1], ...` whose concatenation is (a prefix of) the
+conforming output. -/
+theorem any_fragmentation_same_result (cfg : Cfg) (hconc : cfg.concurrency > 0) (hfix : cfg.popOnlyWhenComplete = true)
+    (hfix2 : cfg.dropUnterminated = true) (ls : List (Bytes × Bytes)) (tl : Tail) (st : St)
     (hgl : GoodLines ls) (htl : tl.Good) (hs : LineStart st) (hcl : st.closed = false) (hdd : st.dead = false)
     (hp : st.pending ≠ 0) (cs : List Bytes) (c0 x : Bytes) (hx : (c0 ++ cs.flatten) ++ x = encode ls ++ tl.enc)
-    (hpend : ∀ k, k < cs.length → (handleRead (tree conc) st (c0 ++ (cs.take k).flatten)).pending ≠ 0) :
-    feed (tree conc) st (c0 :: cs) = handleRead (tree conc) st (c0 ++ cs.flatten) :=
-  feed_eq_single (tree conc) hconc rfl rfl ls tl st hgl htl hs hcl hdd hp cs c0 x hx hpend
+    (hpend : ∀ k, k < cs.length → (handleRead cfg st (c0 ++ (cs.take k).flatten)).pending ≠ 0) :
+    feed cfg st (c0 :: cs) = handleRead cfg st (c0 ++ cs.flatten) :=
+  feed_eq_single cfg hconc hfix hfix2 ls tl st hgl htl hs hcl hdd hp cs c0 x hx hpend
 
-/-- **Two reads or one.**  Wherever the bytes `a ++ b` of conforming output are cut — inside a channel number, right after it,
-inside a body, before or after a terminator — the two reads end in the state of the single read. -/
-theorem two_reads_or_one (conc : Nat) (hconc : conc > 0) (ls : List (Bytes × Bytes)) (tl : Tail) (st : St) (a b : Bytes)
-    (hgl : GoodLines ls) (htl : tl.Good) (hs : LineStart st) (hcl : st.closed = false) (hdd : st.dead = false)
-    (hp : st.pending ≠ 0) (hab : a ++ b = encode ls ++ tl.enc) (hp1 : (handleRead (tree conc) st a).pending ≠ 0) :
-    handleRead (tree conc) (handleRead (tree conc) st a) b = handleRead (tree conc) st (a ++ b) :=
-  handleRead_merge (tree conc) hconc rfl rfl ls tl st a b hgl htl hs hcl hdd hp hab hp1
+/-- **Replies reach the request that asked (partial: conforming output).**  Concurrent helper, repairs 1 and 2, a session
+between two messages.  The helper writes the complete conforming lines `ls` (any channel numbers: waiting, unknown, duplicate,
+in any order), delivered in ANY fragmentation `c0, cs...`.  Then every callback made is the callback of a request `r` that, when
+line `p` was reached, was waiting on exactly the channel `p` names, and it receives exactly `p`'s body. -/
+theorem reply_to_own_channel_partial (cfg : Cfg) (hconc : cfg.concurrency > 0) (hfix : cfg.popOnlyWhenComplete = true)
+    (hfix2 : cfg.dropUnterminated = true) (ls : List (Bytes × Bytes)) (st : St)
+    (hgl : GoodLines ls) (hs : LineStart st) (hcl : st.closed = false) (hdd : st.dead = false)
+    (hp : st.pending ≠ 0) (cs : List Bytes) (c0 : Bytes) (hx : c0 ++ cs.flatten = encode ls)
+    (hpend : ∀ k, k < cs.length → (handleRead cfg st (c0 ++ (cs.take k).flatten)).pending ≠ 0) :
+    ∃ extra, (feed cfg st (c0 :: cs)).delivered = st.delivered ++ extra ∧
+      ∀ d ∈ extra, ∃ pre p post, ls = pre ++ p :: post ∧ ∃ r ∈ (runLines cfg st pre).requests,
+        (r.id : Int) = chanOf cfg p.1 ∧ d = (r.serial, r.acc ++ p.2) := by
+  have h1 := feed_eq_single cfg hconc hfix hfix2 ls .none st hgl trivial hs hcl hdd hp cs c0 [] (by simpa [Tail.enc] using hx) hpend
+  have h0 : ∀ c ∈ encode ls, c ≠ 0 := by
+    have := stream_no_nul ls .none hgl trivial
+    simpa [Tail.enc] using this
+  have h2 : handleRead cfg st (encode ls) = runLines cfg st ls := by
+    rw [handleRead_eq_loop cfg st _ hcl hdd h0 hp, st_rbuf_eta st hs.rbuf, hs.rbuf]
+    exact loop_lines cfg hconc ls st _ hgl hs (by simp)
+  rw [h1, hx, h2]
+  exact runLines_delivered cfg hconc ls st
 
-/-- A reply line naming a channel on which no request waits changes no request's fate and removes no request. -/
+/-- A reply line naming a channel on which no request waits changes no request's fate. -/
 theorem unknown_channel_never_applied (cfg : Cfg) (hconc : cfg.concurrency > 0) (st : St) (ds body : Bytes)
     (hun : ∀ r ∈ st.requests, (r.id : Int) ≠ chanOf cfg ds) :
     (lineStep cfg st ds body).delivered = st.delivered ∧ (popRequest cfg st.requests (chanOf cfg ds)) = (none, st.requests) := by
@@ -83,18 +130,20 @@ theorem unknown_channel_never_applied (cfg : Cfg) (hconc : cfg.concurrency > 0) 
   · exact Prod.ext h1 h2
   · exact absurd hid (hun r hr)
 
-/-- For arbitrary bytes (conforming or not): when the buffer holds no end of message and the text read so far is only (part of)
-a channel number, the reader decides nothing — no request is looked up, the bytes wait in `rbuf`. -/
-theorem pop_never_on_partial_id (conc : Nat) (hconc : conc > 0) (st : St)
+/-- For arbitrary bytes (conforming or not): with repair 1, when the buffer holds no end of message and the text read so far
+is only (part of) a channel number, the reader decides nothing — no request is looked up, the bytes wait in `rbuf`. -/
+theorem pop_never_on_partial_id (cfg : Cfg) (hconc : cfg.concurrency > 0) (hfix : cfg.popOnlyWhenComplete = true) (st : St)
     (ds : Bytes) (hcur : st.cur = none) (hign : st.ignoreToEom = false) (hd : GoodDigits ds) :
-    iter (tree conc) st ds = .stop st ds :=
-  iter_partial_digits (tree conc) st ds hconc rfl hcur hign hd
+    iter cfg st ds = .stop st ds :=
+  iter_partial_digits cfg st ds hconc hfix hcur hign hd
 
-/-- No helper output whatsoever — any bytes, any fragmentation, any number of waiting requests — trips an assertion of the reader. -/
-theorem never_aborts (conc base n : Nat) (reads : List Bytes) : (run (tree conc) base n reads).dead = false := by
+/-- No helper output whatsoever — any bytes, any fragmentation — trips an assertion of the repaired reader. -/
+theorem repaired_never_aborts (conc base n : Nat) (reads : List Bytes) : (run (repaired conc) base n reads).dead = false := by
   unfold run
-  have h := submitAll_clean (tree conc) ((List.range n).map (· + 1)) (initial base) rfl rfl
-  exact feed_alive (tree conc) rfl rfl reads _ h.1 (by simp [h.2])
+  have h := submitAll_clean (repaired conc) ((List.range n).map (· + 1)) (initial base) rfl rfl
+  exact feed_alive (repaired conc) rfl rfl reads _ h.1 (by simp [h.2])
+
+/-! ## non-concurrent helpers: request order -/
 
 /-- Without concurrency the session's request list is a FIFO: `helperDispatch` appends at the tail, and whatever a reply line
 says, `popRequest` hands out the oldest dispatched request. -/
@@ -103,49 +152,11 @@ theorem fifo_when_not_concurrent (cfg : Cfg) (h0 : cfg.concurrency = 0) (st : St
     popRequest cfg (r :: rs) i = (some r, rs) ∧ popRequest cfg [] i = (none, []) := by
   simp [dispatch, popRequest, h0]
 
-/-- Three requests on a non-concurrent helper, three replies in arbitrary fragmentation: request order. -/
+/-- Three requests on a non-concurrent helper, three replies in arbitrary fragmentation: request order (pinned and repaired). -/
 theorem fifo_example :
-    (run (tree 0) 0 3 [[79, 75, 32, 97], [10, 69], [82, 82, 10, 79, 75, 32, 99, 10]]).delivered
-      = [(1, [79, 75, 32, 97]), (2, [69, 82, 82]), (3, [79, 75, 32, 99])] := by
-  decide +kernel
-
-/-- Regression witnesses on the tree as it is: `12 OK\n` arriving as `1` | `2 OK\n` with channels 1..12 waiting reaches channel 12
-and only channel 12; `OK\n`, a NUL octet and `4294967297 OK\n` neither abort nor reach anybody. -/
-theorem witnesses_pass :
-    (let st := run (tree 60) 0 12 [[49], [50, 32, 79, 75, 10]]
-     deliveredTo st 12 = some [79, 75] ∧ deliveredTo st 1 = none) ∧
-    deliveredTo (run (tree 60) 9 3 [[49], [50, 32, 79, 75, 10]]) 3 = some [79, 75] ∧
-    (run (tree 60) 0 1 [[79, 75, 10]]).dead = false ∧
-    (run (tree 60) 0 1 [[49, 32, 79, 75, 10, 0]]).dead = false ∧
-    deliveredTo (run (tree 60) 0 1 [[52, 50, 57, 52, 57, 54, 55, 50, 57, 55, 32, 79, 75, 10]]) 1 = none := by
-  decide +kernel
-
-/-! ## pre-fix behaviour (before ad6fd97 / 42be5de / e4eb057): the defects this check found, kept as labelled counterexamples -/
-
-/-- PRE-FIX.  Channels 1..12 wait, the helper answers channel 12 with `12 OK\n` and the bytes arrive as `1` | `2 OK\n`: the reply
-is applied to the request on channel 1 (as the text `12 OK`); the request on channel 12 never gets it. -/
-theorem pre_fix_split_channel_id_counterexample :
-    let st := run (preFix 60) 0 12 [[49], [50, 32, 79, 75, 10]]
-    deliveredTo st 1 = some [49, 50, 32, 79, 75] ∧ deliveredTo st 12 = none := by
-  decide +kernel
-
-/-- PRE-FIX.  The same bytes when only channels 10..12 wait: the reply is dropped although one read delivers it. -/
-theorem pre_fix_split_channel_id_drop_counterexample :
-    deliveredTo (run (preFix 60) 9 3 [[49], [50, 32, 79, 75, 10]]) 3 = none ∧
-    deliveredTo (run (preFix 60) 9 3 [[49, 50, 32, 79, 75, 10]]) 3 = some [79, 75] := by
-  decide +kernel
-
-/-- PRE-FIX.  `OK\n` from a helper that ignores the concurrency protocol trips `assert(skip == 0 && eom == nullptr)`. -/
-theorem pre_fix_unterminated_id_assert_counterexample : (run (preFix 60) 0 1 [[79, 75, 10]]).dead = true := by
-  decide +kernel
-
-/-- PRE-FIX.  A NUL octet right after a reply trips `assert(msg - rbuf == roffset)`. -/
-theorem pre_fix_nul_assert_counterexample : (run (preFix 60) 0 1 [[49, 32, 79, 75, 10, 0]]).dead = true := by
-  decide +kernel
-
-/-- PRE-FIX.  `4294967297 OK\n` (2^32 + 1) is applied to the request waiting on channel 1 (`strtol` stored in an `int`). -/
-theorem pre_fix_channel_id_truncation_counterexample :
-    deliveredTo (run (preFix 60) 0 1 [[52, 50, 57, 52, 57, 54, 55, 50, 57, 55, 32, 79, 75, 10]]) 1 = some [79, 75] := by
+    let reads : List Bytes := [[79, 75, 32, 97], [10, 69], [82, 82, 10, 79, 75, 32, 99, 10]]
+    (run (pinned 0) 0 3 reads).delivered = [(1, [79, 75, 32, 97]), (2, [69, 82, 82]), (3, [79, 75, 32, 99])] ∧
+    (run (repaired 0) 0 3 reads).delivered = [(1, [79, 75, 32, 97]), (2, [69, 82, 82]), (3, [79, 75, 32, 99])] := by
   decide +kernel
 
 /-! ## the hypotheses are satisfiable, the recognisers are not vacuous -/
@@ -160,11 +171,11 @@ example : GoodLines [([49, 50], [79, 75]), ([55], [])] := by
   · exact ⟨⟨by simp, by decide⟩, ⟨by simp, by simp⟩⟩
 example : encode [([49, 50], [79, 75]), ([55], [])] = [49, 50, 32, 79, 75, 10, 55, 32, 10] := by decide
 /-- a session between messages with waiting requests: the state right after submitting 12 requests -/
-example : LineStart (submitAll (tree 60) (initial 0) ((List.range 12).map (· + 1))) ∧
-    (submitAll (tree 60) (initial 0) ((List.range 12).map (· + 1))).pending = 12 := by
+example : LineStart (submitAll (repaired 60) (initial 0) ((List.range 12).map (· + 1))) ∧
+    (submitAll (repaired 60) (initial 0) ((List.range 12).map (· + 1))).pending = 12 := by
   refine ⟨⟨by decide +kernel, by decide +kernel, by decide +kernel⟩, by decide +kernel⟩
-/-- the conclusion of `reply_to_own_channel` is not vacuous: on the witness the callback list is non-empty -/
-example : (feed (tree 60) (submitAll (tree 60) (initial 0) ((List.range 12).map (· + 1))) [[49], [50, 32, 79, 75, 10]]).delivered
+/-- the conclusion of `reply_to_own_channel_partial` is not vacuous: on the witness the callback list is non-empty -/
+example : (feed (repaired 60) (submitAll (repaired 60) (initial 0) ((List.range 12).map (· + 1))) [[49], [50, 32, 79, 75, 10]]).delivered
     = [(12, [79, 75])] := by decide +kernel
 /-- `GoodBody` rejects a body starting with a space, `GoodDigits` rejects a sign -/
 example : ¬ GoodBody [32, 79] := fun h => by have := h.2 32 rfl; revert this; decide
